@@ -270,35 +270,66 @@ def oracle_program(prog, resp):
     if resp.get("code") != 0:
         return "valid program rejected by ParseFrugal: %s" % resp.get("msg", "")[:300]
 
-    def walk(name, node, seen):
+    def walk(name, node):
         m = prog["models"][name]
         want = G.canon(m, sort_scopes=True)
-        got_ast = G.from_json(node["ast"])
+        got_name, got_ast, got_incs = node
+        got_ast = list(got_ast)
         # the order of scopes is not part of the property (ParseFrugal sorts them for determinism)
         got_ast[9] = sorted(got_ast[9], key=lambda sc: sc[1])
         d = first_diff(want, got_ast)
         if d:
             return "file %s: parse tree differs from the declaration: %s" % (name.decode(), d)
-        stem = os.path.basename(name.decode()).split(".")[0]
-        if node.get("name") != stem:
-            return "file %s: Frugal.Name is %r" % (name.decode(), node.get("name"))
+        stem = os.path.basename(name.decode()).split(".")[0].encode()
+        if got_name != stem:
+            return "file %s: Frugal.Name is %r" % (name.decode(), got_name)
         incs = [d2["value"] for k, d2 in m["decls"] if k == "include"]
-        got = node.get("includes") or {}
-        if sorted(got) != sorted(G.include_name(v).decode() for v in incs) and name not in seen:
+        got = {k: sub for k, sub in got_incs}
+        if sorted(got) != sorted({G.include_name(v) for v in incs}):
             return "file %s: ParsedIncludes has %r, the file includes %r" % (name.decode(), sorted(got), incs)
-        if name in seen:
-            return None
-        seen.add(name)
         for v in incs:
             child = os.path.normpath(os.path.join(os.path.dirname(name.decode()), v.decode())).encode()
-            sub = got.get(G.include_name(v).decode())
-            if sub is None:
-                return "file %s: include %r missing" % (name.decode(), v)
-            r = walk(child, sub, seen)
+            r = walk(child, got[G.include_name(v)])
             if r:
                 return r
         return None
-    return walk(prog["root"], resp, set())
+    return walk(prog["root"], G.from_json(resp["ast"]))
+
+
+def judge_case_files(prog, resp):
+    files = [[n, t] for n, t in sorted(prog["files"].items())]
+    code = resp.get("code", 103)
+    tree = G.from_json(resp["ast"]) if code == 0 else []
+    return [2, files, prog["root"], code, tree]
+
+
+def mutate_program(rng, prog):
+    """programs that ParseFrugal must reject (or at least answer in an orderly way): a semantic
+    mutation of one file of a valid program"""
+    files = dict(prog["files"])
+    name = rng.choice(sorted(files))
+    r = rng.random()
+    t = files[name]
+    if r < 0.2:
+        t = t + b"\nstruct Dangling { 1: NoSuchType x }\n"
+    elif r < 0.35:
+        t = t + b"\nstruct Twice { 1: i32 a, 1: i32 b }\n"
+    elif r < 0.5:
+        t = t + b"\nservice Svc9 { void ping() } service svc9 { void ping() }\n"
+    elif r < 0.6:
+        t = t + b"\ninclude \"" + os.path.basename(prog["root"].decode()).encode() + b"\"\n"      # cycle / self include
+    elif r < 0.7:
+        t = t + b"\ninclude \"missing.frugal\"\n"
+    elif r < 0.78:
+        t = t + b"\ninclude \"other.txt\"\n"
+    elif r < 0.86:
+        t = t + b"\nconst i32 Ref9 = no_such_constant\n"
+    elif r < 0.93:
+        t = t + b"\nservice Svc8 { oneway i32 f() }\n"
+    else:
+        t = t + b"\ntypedef list Bare9\n"
+    files[name] = t
+    return {"files": files, "root": prog["root"], "models": prog["models"], "mutated": True}
 
 
 # ---- main ------------------------------------------------------------------------------------------
@@ -306,7 +337,7 @@ def oracle_program(prog, resp):
 def run(ctx, br):
     rng = ctx.rng
     quick = ctx.tier == "quick"
-    n_valid, n_hazard_each, n_bad, n_prog = (110, 2, 60, 12) if quick else (2500, 25, 1500, 200)
+    n_valid, n_hazard_each, n_bad, n_prog = (110, 2, 60, 12) if quick else (1600, 20, 900, 150)
     rules = run_harness([{"op": "rules"}])[0].get("rules", [])
     rule_ids = {n: i for i, n in enumerate(rules)}
 
@@ -358,6 +389,8 @@ def run(ctx, br):
             name = ("hz%d.frugal" % i).encode()
             progs.append({"files": {name: G.Renderer(rng, plain=True).render(m)}, "root": name, "models": {name: m},
                           "hazard": hz})
+    n_good = len(progs)
+    progs += [mutate_program(rng, rng.choice(progs[:n_prog])) for _ in range(max(4, n_prog // 2))]
     preqs = []
     for i, p in enumerate(progs):
         preqs.append({"op": "files", "dir": os.path.join(ctx.rundir, "prog", str(i)),
@@ -367,7 +400,14 @@ def run(ctx, br):
         raise RuntimeError("harness answered %d of %d program requests" % (len(presps), len(progs)))
     prog_fail = 0
     for p, r in zip(progs, presps):
-        why = oracle_program(p, r)
+        if p.get("mutated"):
+            # any orderly answer is fine, except the nil dereference on a bare container name,
+            # which is the C11 defect "typedef list X" (reported there)
+            why = None
+            if r.get("code", 0) >= 100 and not any(b"typedef list Bare9" in t for t in p["files"].values()):
+                why = "ParseFrugal crashed or hung: %s" % (r.get("panic") or r.get("msg"))
+        else:
+            why = oracle_program(p, r)
         if why:
             prog_fail += 1
             hz = p.get("hazard")
@@ -378,7 +418,7 @@ def run(ctx, br):
     json_fail = 0
     n_json = 0
     for p, r in list(zip(progs, presps))[: (6 if quick else 60)]:
-        if p.get("hazard") or r.get("code") != 0:
+        if p.get("hazard") or p.get("mutated") or r.get("code") != 0:
             continue
         n_json += 1
         why = json_view_check(ctx, p, ctx.rundir)
@@ -390,7 +430,17 @@ def run(ctx, br):
 
     # the judge: model vs implementation on every text (including every file of every program)
     jcases = [judge_case_parse(c["text"], r, rule_ids) for c, r in zip(cases, resps)]
+    jcases += [judge_case_files(p, r) for p, r in zip(progs, presps)]
     verdicts = vlib.run_judge(ctx.rundir, "JParser", "judge", jcases, shard=400000)
+    pverdicts = verdicts[len(cases):]
+    verdicts = verdicts[:len(cases)]
+    for p, r, v in zip(progs, presps, pverdicts):
+        if v < 0:
+            ctx.violation("C10 correspondence (ParseFrugal): model and implementation disagree",
+                          {"files": {n.decode(): t.decode("utf8", "backslashreplace") for n, t in p["files"].items()},
+                           "root": p["root"].decode(), "observed": {k: r.get(k) for k in ("code", "msg", "panic")},
+                           "no_failing_input_found": True,
+                           "broken": "correspondence JParser.judge_files (Model/ParserFiles.v disagrees with parser.ParseFrugal)"})
     mism = [i for i, v in enumerate(verdicts) if v < 0]
     for i in mism:
         c, r = cases[i], resps[i]
@@ -431,7 +481,9 @@ def run(ctx, br):
                 "lexical styles; hazard cases (one Thrift-valid construct the grammar mishandles each); mutated texts. "
                 "non-trivial = accepted well-formed text with >= 1 declaration; distinct by text",
         "traces_validated_against_impl": len([v for v in verdicts if v >= 0]),
-        "judge_mismatches": len(mism),
+        "judge_mismatches": len(mism) + len([v for v in pverdicts if v < 0]),
+        "programs_validated_against_impl": len([v for v in pverdicts if v >= 0]),
+        "program_branch_tags": {str(k): pverdicts.count(k) for k in sorted(set(pverdicts))},
         "oracle_failures": oracle_fail,
         "program_oracle_failures": prog_fail,
         "json_descriptor_checked": n_json,
